@@ -21,6 +21,71 @@ TOP = ('top',)
 SELF = ('self',)
 
 
+THRESHOLDS = sorted(set(list(range(0, 18)) + [32, 64, 127, 128, 255, 256, 32767, 32768, 65535, 65536,
+                                               (1 << 31) - 1, 1 << 31, (1 << 32) - 1, 1 << 32, (1 << 63) - 1, 1 << 63,
+                                               (1 << 64) - 1]))
+NEG_THRESHOLDS = sorted(set([-x for x in THRESHOLDS] + [-129, -32769, -(1 << 31) - 1]))
+
+
+def widen_hi(v, tmax):
+    for t in THRESHOLDS:
+        if t >= v:
+            return min(t, tmax)
+    return tmax
+
+
+def widen_lo(v, tmin):
+    for t in reversed(NEG_THRESHOLDS):
+        if t <= v:
+            return max(t, tmin)
+    return tmin
+
+
+def combine_iv_ex(facts_list):
+    """set-precise union of the per-atom value sets of several fact stores"""
+    atoms = set()
+    for f in facts_list:
+        atoms.update(f.iv.keys())
+        atoms.update(f.ex.keys())
+    iv, ex = {}, {}
+    for a in atoms:
+        small = True
+        U = set()
+        lo, hi = INF, -INF
+        for f in facts_list:
+            l, h = f.iv.get(a, (-INF, INF))
+            lo, hi = min(lo, l), max(hi, h)
+            if small and l != -INF and h != INF and h - l <= 64:
+                U.update(x for x in range(l, h + 1) if x not in f.ex.get(a, ()))
+            else:
+                small = False
+        if small and U:
+            lo, hi = min(U), max(U)
+            iv[a] = (lo, hi)
+            e = frozenset(x for x in range(lo, hi + 1) if x not in U)
+            if e:
+                ex[a] = e
+            continue
+        if (lo, hi) != (-INF, INF):
+            iv[a] = (lo, hi)
+        pts = set()
+        for f in facts_list:
+            pts.update(f.ex.get(a, ()))
+        keep = set()
+        for p_ in pts:
+            ok = True
+            for f in facts_list:
+                l, h = f.iv.get(a, (-INF, INF))
+                if not (p_ in f.ex.get(a, ()) or p_ < l or p_ > h):
+                    ok = False
+                    break
+            if ok and lo <= p_ <= hi:
+                keep.add(p_)
+        if keep:
+            ex[a] = frozenset(keep)
+    return iv, ex
+
+
 class Unsupported(AnalysisBroken):
     pass
 
@@ -125,6 +190,7 @@ class Interp:
         self.loop_iters = {}
         self.stats = {'calls': 0, 'forks': 0, 'loops': 0, 'stmts': 0}
         self._switch_cache = {}
+        self.atom_range = {}
 
     # ------------------------------------------------------------------ types
     def itype(self, node_or_type):
@@ -146,6 +212,8 @@ class Interp:
     def fresh(self, st, name, t=None, rng=None):
         """atom with a type-derived interval (intersected with an existing one)"""
         lo, hi = rng if rng is not None else (self.type_range(t) if t is not None else (-INF, INF))
+        if name not in self.atom_range:
+            self.atom_range[name] = (lo, hi)
         old = st.facts.iv.get(name)
         if old is not None:
             lo, hi = max(lo, old[0]), min(hi, old[1])
@@ -216,24 +284,7 @@ class Interp:
             states = [x[0] for x in g]
             r = states[0].copy()
             f = r.facts
-            # intervals: hull; exclusions: intersection; linear facts: entailed everywhere
-            atoms = set()
-            for st in states:
-                atoms.update(st.facts.iv.keys())
-            iv = {}
-            for a in atoms:
-                lo, hi = INF, -INF
-                for st in states:
-                    l, h = st.facts.iv.get(a, (-INF, INF))
-                    lo, hi = min(lo, l), max(hi, h)
-                if (lo, hi) != (-INF, INF):
-                    iv[a] = (lo, hi)
-            f.iv = iv
-            ex = None
-            for st in states:
-                e = st.facts.ex
-                ex = dict(e) if ex is None else {a: x & e[a] for a, x in ex.items() if a in e and (x & e[a])}
-            f.ex = ex or {}
+            f.iv, f.ex = combine_iv_ex([st.facts for st in states])
             ub = {}
             keys = set()
             for st in states:
@@ -384,8 +435,12 @@ class Interp:
                     s1 = rest.copy()
                     if s1.facts.assume_eq(v, l):
                         self.stats['forks'] += 1
-                        targets.append((s1, idx, l))
+                        if self.model.refined(s1, v, self) is not False:
+                            targets.append((s1, idx, l))
                     if not rest.facts.assume_ne(v, l):
+                        rest = None
+                        break
+                    if self.model.refined(rest, v, self) is False:
                         rest = None
                         break
                 if rest is None:
@@ -486,10 +541,22 @@ class Interp:
         it = 0
         while True:
             it += 1
-            if it > 12:
+            if it > 40:
+                import os
+                if os.environ.get('CATSA_DEBUG'):
+                    a, b = self._dbg_prev, cur
+                    print('LOOP NONCONV line', line)
+                    for kx in set(a.mem) | set(b.mem):
+                        if a.mem.get(kx) != b.mem.get(kx):
+                            print('   mem', kx, a.mem.get(kx), b.mem.get(kx))
+                    print('   iv', {x: (a.facts.iv.get(x), b.facts.iv.get(x)) for x in set(a.facts.iv) | set(b.facts.iv) if a.facts.iv.get(x) != b.facts.iv.get(x)})
+                    print('   ub', {repr(Lin(x, 0)): (a.facts.ub.get(x), b.facts.ub.get(x)) for x in set(a.facts.ub) | set(b.facts.ub) if a.facts.ub.get(x) != b.facts.ub.get(x)})
+                    print('   ex', {x: (a.facts.ex.get(x), b.facts.ex.get(x)) for x in set(a.facts.ex) | set(b.facts.ex) if a.facts.ex.get(x) != b.facts.ex.get(x)})
+                    print('   ghost', a.ghost, b.ghost, 'pnull', a.pnull == b.pnull)
                 raise Unsupported('loop at line %s does not stabilise' % line)
+            self._dbg_prev = cur
             cand = back if cur is None else [cur] + back
-            new = self.join(cand, tag, base, widen=(it >= 3), prev=cur)
+            new = self.join(cand, tag, base, widen=(it >= 3), prev=cur, hard=(it >= 9))
             if cur is not None and self.same_state(cur, new):
                 break
             cur = new
@@ -510,9 +577,18 @@ class Interp:
         if a.mem != b.mem or a.pnull != b.pnull or a.ghost != b.ghost:
             return False
         fa, fb = a.facts, b.facts
-        return fa.iv == fb.iv and fa.ub == fb.ub and fa.ex == fb.ex
+        if fa.ub != fb.ub or fa.ex != fb.ex:
+            return False
+        if fa.iv == fb.iv:
+            return True
+        ar = self.atom_range
+        for x in set(fa.iv) | set(fb.iv):
+            d = ar.get(x, (-INF, INF))
+            if fa.iv.get(x, d) != fb.iv.get(x, d):
+                return False
+        return True
 
-    def join(self, states, tag, base, widen=False, prev=None, namefn=None):
+    def join(self, states, tag, base, widen=False, prev=None, namefn=None, force=(), hard=False):
         """upper bound of path states.  Integer locations whose values differ are
         abstracted to canonical atoms (namefn(loc), default J:<tag>:<loc>); each
         state's facts are re-expressed over those atoms (pivot substitution), and
@@ -523,15 +599,23 @@ class Interp:
         res = State()
         res.stack = s0.stack
         res.trace = base
-        keys = set()
+        # ghost entries that hold an index (a Lin) are joined like memory locations
+        mems = []
         for s in states:
-            keys.update(s.mem.keys())
+            m = dict(s.mem)
+            for gk, gv in s.ghost.items():
+                if is_lin(gv):
+                    m[('G', gk)] = gv
+            mems.append(m)
+        keys = set()
+        for m in mems:
+            keys.update(m.keys())
         diff = {}
         ptrdiff = []
         for k in keys:
-            vals = [s.mem.get(k) for s in states]
+            vals = [m.get(k) for m in mems]
             v0 = vals[0]
-            if all(v == v0 for v in vals):
+            if all(v == v0 for v in vals) and not (k in force and is_lin(v0)):
                 res.mem[k] = v0
             elif all(is_lin(v) for v in vals):
                 diff[k] = namefn(k)
@@ -560,21 +644,24 @@ class Interp:
                     del res.mem[k]
                     changed = True
         for k in ptrdiff:
-            res.mem[k] = self._join_ptr([s.mem.get(k) for s in states], states, tag, k, res)
+            res.mem[k] = self._join_ptr([m.get(k) for m in mems], states, tag, k, res)
         # per-state abstraction
         abst = []
-        for s in states:
+        for s, m in zip(states, mems):
             f = s.facts.copy()
             sub = {}
             used = set()
             for k, name in diff.items():
-                v = s.mem[k]
+                v = m[k]
                 pn = name + "'"
                 lo, hi = s.facts.lower(v), s.facts.upper(v)
                 tlo, thi = self._loc_type_range(k)
                 lo, hi = max(lo, tlo), min(hi, thi)
                 if (lo, hi) != (-INF, INF):
                     f.iv[pn] = (lo, hi)
+                sg = v.single()
+                if sg and sg[1] == 1 and sg[0] in s.facts.ex:
+                    f.ex[pn] = frozenset(x + sg[2] for x in s.facts.ex[sg[0]])
                 piv = None
                 for a, c in v.terms:
                     if a == name and c in (1, -1):
@@ -586,6 +673,12 @@ class Interp:
                             piv = (a, c)
                             break
                 if piv is None:
+                    # the value is built from stable atoms only: remember the definition itself
+                    if 1 <= len(v.terms) <= 2:
+                        d = Lin.atom(pn).sub(v)
+                        f.ub[d.terms] = -d.const
+                        d2 = d.scale(-1)
+                        f.ub[d2.terms] = -d2.const
                     continue
                 a, c = piv
                 used.add(a)
@@ -604,17 +697,23 @@ class Interp:
             abst.append(f)
         # combine
         rf = res.facts
-        atoms = set()
-        for f in abst:
-            atoms.update(f.iv.keys())
-        for a in atoms:
-            lo, hi = INF, -INF
-            for f in abst:
-                l, h = f.iv.get(a, (-INF, INF))
-                lo, hi = min(lo, l), max(hi, h)
-            if (lo, hi) != (-INF, INF):
-                rf.iv[a] = (lo, hi)
+        rf.iv, rf.ex = combine_iv_ex(abst)
         if widen and prev is not None:
+            dn = set(n_ + "'" for n_ in diff.values())
+            for a in list(rf.iv.keys()):
+                if a in dn or a not in prev.facts.iv:
+                    continue
+                plo, phi = prev.facts.iv[a]
+                lo, hi = rf.iv[a]
+                tlo, thi = self.atom_range.get(a, (-INF, INF))
+                if lo < plo:
+                    lo = tlo if hard else widen_lo(lo, tlo)
+                if hi > phi:
+                    hi = thi if hard else widen_hi(hi, thi)
+                if (lo, hi) != (-INF, INF):
+                    rf.iv[a] = (lo, hi)
+                else:
+                    del rf.iv[a]
             for k, name in diff.items():
                 pv = prev.mem.get(k)
                 if is_lin(pv) and pv == Lin.atom(name) and (name + "'") in rf.iv:
@@ -622,21 +721,42 @@ class Interp:
                     lo, hi = rf.iv[name + "'"]
                     tlo, thi = self._loc_type_range(k)
                     if lo < plo:
-                        lo = tlo
+                        lo = tlo if hard else widen_lo(lo, tlo)
                     if hi > phi:
-                        hi = thi
+                        hi = thi if hard else widen_hi(hi, thi)
                     if (lo, hi) != (-INF, INF):
                         rf.iv[name + "'"] = (lo, hi)
                     else:
                         del rf.iv[name + "'"]
-        ex = None
-        for f in abst:
-            e = f.ex
-            ex = dict(e) if ex is None else {a: x & e[a] for a, x in ex.items() if a in e and (x & e[a])}
-        rf.ex = ex or {}
         cands = set()
         for f in abst:
             cands.update(f.ub.keys())
+        # template candidates  x - y <= c  for an abstracted location x and an atom y whose own
+        # interval differs between the states (a relation hidden in intervals when x was constant)
+        if diff and len(abst) > 1:
+            vary = []
+            common = set(abst[0].iv.keys())
+            for f in abst[1:]:
+                common &= set(f.iv.keys())
+            for a in common:
+                if a.endswith("'"):
+                    continue
+                v0 = abst[0].iv[a]
+                if any(f.iv[a] != v0 for f in abst[1:]):
+                    vary.append(a)
+            dn = sorted(set(diff.values()))
+            if len(vary) <= 6:
+                for name in dn:
+                    for y in vary:
+                        l = Lin.atom(name + "'").sub(Lin.atom(y))
+                        cands.add(l.terms)
+                        cands.add(l.scale(-1).terms)
+            if len(dn) <= 5:
+                for i_, x in enumerate(dn):
+                    for y in dn[i_ + 1:]:
+                        l = Lin.atom(x + "'").sub(Lin.atom(y + "'"))
+                        cands.add(l.terms)
+                        cands.add(l.scale(-1).terms)
         for terms in cands:
             best = -INF
             l = Lin(terms, 0)
@@ -646,8 +766,55 @@ class Interp:
                     best = u
                 if best == INF:
                     break
-            if best != INF and rf.bounds(l)[1] > best:
+            if best != INF and best < (1 << 62) and rf.bounds(l)[1] > best:
                 rf.ub[terms] = best
+        if widen and prev is not None:
+            ren0 = {name: name + "'" for name in diff.values()}
+            for terms in list(rf.ub.keys()):
+                pt = Lin(terms, 0).rename(lambda a: a[:-1] if a.endswith("'") else a).terms
+                pc = prev.facts.ub.get(pt)
+                if pc is None:
+                    pu = prev.facts.upper(Lin(pt, 0))
+                    pc = pu if pu != INF else None
+                if pc is not None and rf.ub[terms] > pc:
+                    w = widen_hi(rf.ub[terms], INF) if rf.ub[terms] >= 0 else -widen_lo(-rf.ub[terms], -INF) if False else rf.ub[terms]
+                    if rf.ub[terms] >= 0:
+                        w = widen_hi(rf.ub[terms], INF)
+                    else:
+                        # negative constants grow towards 0 through the negated thresholds
+                        w = -max((t for t in THRESHOLDS if t <= -rf.ub[terms]), default=0)
+                    if w == INF or hard:
+                        del rf.ub[terms]
+                    else:
+                        rf.ub[terms] = w
+        if hard and prev is not None:
+            # enforced monotonicity: the result may not be stronger than the previous head anywhere
+            pf = prev.facts
+            unp = lambda a: a[:-1] if a.endswith("'") else a
+            for a in list(rf.iv.keys()):
+                pa = unp(a)
+                if pa not in pf.iv:
+                    d = self.atom_range.get(pa)
+                    if d is None or d == (-INF, INF):
+                        del rf.iv[a]
+                    else:
+                        rf.iv[a] = d
+                else:
+                    lo, hi = rf.iv[a]
+                    plo, phi = pf.iv[pa]
+                    rf.iv[a] = (min(lo, plo), max(hi, phi))
+            for a in list(rf.ex.keys()):
+                keep = rf.ex[a] & pf.ex.get(unp(a), frozenset())
+                if keep:
+                    rf.ex[a] = keep
+                else:
+                    del rf.ex[a]
+            for terms in list(rf.ub.keys()):
+                pt = Lin(terms, 0).rename(unp).terms
+                if pt not in pf.ub:
+                    del rf.ub[terms]
+                else:
+                    rf.ub[terms] = max(rf.ub[terms], pf.ub[pt])
         # primed -> final names
         ren = {name + "'": name for name in diff.values()}
         if ren:
@@ -659,7 +826,11 @@ class Interp:
         for name, v in s0.pnull.items():
             if all(s.pnull.get(name) == v for s in states):
                 res.pnull[name] = v
+        gl = {}
+        for k in [k for k in res.mem if k[0] == 'G']:
+            gl[k[1]] = res.mem.pop(k)
         res.ghost = self.model.join_ghost([s.ghost for s in states], states, res)
+        res.ghost.update(gl)
         for a, p in s0.prov.items():
             if all(s.prov.get(a) == p for s in states):
                 res.prov[a] = p
@@ -671,6 +842,8 @@ class Interp:
         return a.startswith(('J:', 'f:', 'B@', 'R@', 'T@', 'U:', 'H@', 'wrap', 'cast', 'ovf'))
 
     def _locname(self, k):
+        if k[0] == 'G':
+            return 'g.' + '.'.join(str(x) if not isinstance(x, tuple) else '_'.join(map(str, x)) for x in k[1])
         if k[0] == 'S':
             return '.'.join(str(x) for x in k[1:])
         if k[0] == 'L':
@@ -679,6 +852,8 @@ class Interp:
         return repr(k)
 
     def _loc_type_range(self, k):
+        if k[0] == 'G':
+            return (0, (1 << 64) - 1)
         t = self.model.loc_type(k)
         if t is None:
             return (-INF, INF)
@@ -731,6 +906,8 @@ class Interp:
             f = s.copy()
             t = s if s.facts.assume_ne(v, 0) else None
             f = f if f.facts.assume_eq(v, 0) else None
+            if t is not None and self.model.refined(t, v, self) is False:
+                t = None
             return (t, f)
         # pointer truthiness
         isn = self.is_null(v, s)
@@ -901,6 +1078,9 @@ class Interp:
                 c -= (1 << bits)
             return Lin.c(c)
         bits, signed = self.itype(n)
+        if bits == 64 and not signed and vlo >= 0:
+            # same domain assumption as for 64-bit additions: counters do not overflow
+            return v
         # value may not fit: result is the wrapped value, a derived atom
         name = 'cast%s%d(%s)' % ('s' if signed else 'u', bits, lin_repr(v))
         s.ev('conv', n, value=v, bits=bits, signed=signed, lo=vlo, hi=vhi)
@@ -1099,6 +1279,10 @@ class Interp:
             if signed:
                 s.ev('ob', n, ob='sovf', ok=False, value=r, op=op, lo=lo, hi=hi)
                 return self.fresh(s, 'ovf(%s)' % lin_repr(r), n['type'])
+            if bits == 64 and op == '+' and lo >= tlo and s.facts.lower(a) >= 0 and s.facts.lower(b) >= 0:
+                # domain assumption: a 64-bit counter of input bytes / descriptor entries never overflows
+                s.ev('assume', n, what='no-64bit-counter-overflow', value=r)
+                return r
             # unsigned wrap-around: well defined but the linear form is lost
             s.ev('wrap', n, value=r, op=op, lo=lo, hi=hi)
             return self.fresh(s, 'wrap%d(%s)' % (bits, lin_repr(r)), n['type'])
@@ -1145,8 +1329,18 @@ class Interp:
                     s.ev('ob', n, ob='sovf', ok=False, op=op, value=name)
                 lo, hi = tlo, thi
         elif op == '*':
-            if signed:
-                s.ev('ob', n, ob='sovf', ok=False, op=op, value=name)
+            if INF in (ahi, bhi) or -INF in (alo, blo):
+                if signed:
+                    s.ev('ob', n, ob='sovf', ok=False, op=op, value=name)
+            else:
+                ps = [alo * blo, alo * bhi, ahi * blo, ahi * bhi]
+                lo, hi = min(ps), max(ps)
+                if lo < tlo or hi > thi:
+                    if signed:
+                        s.ev('ob', n, ob='sovf', ok=False, op=op, value=name)
+                    lo, hi = tlo, thi
+                elif signed:
+                    s.ev('ob', n, ob='sovf', ok=True, op=op, value=name)
         if op in ('/', '%'):
             z = s.facts.eq(b, 0)
             s.ev('ob', n, ob='divzero', ok=(z is False))
@@ -1164,9 +1358,9 @@ class Interp:
                     return [(s, Lin.c(1 if e else 0))]
                 f = s.copy()
                 out = []
-                if s.facts.assume_eq(d, 0):
+                if s.facts.assume_eq(d, 0) and self.model.refined(s, d, self) is not False:
                     out.append((s, Lin.c(1)))
-                if f.facts.assume_ne(d, 0):
+                if f.facts.assume_ne(d, 0) and self.model.refined(f, d, self) is not False:
                     out.append((f, Lin.c(0)))
                 self.stats['forks'] += 1
                 return out
@@ -1186,9 +1380,9 @@ class Interp:
             f = s.copy()
             out = []
             self.stats['forks'] += 1
-            if s.facts.assume_le(form, c):
+            if s.facts.assume_le(form, c) and self.model.refined(s, form, self) is not False:
                 out.append((s, Lin.c(1)))
-            if f.facts.assume_le(form.scale(-1), -c - 1):
+            if f.facts.assume_le(form.scale(-1), -c - 1) and self.model.refined(f, form, self) is not False:
                 out.append((f, Lin.c(0)))
             return out
         # pointer comparison
@@ -1408,6 +1602,7 @@ class Interp:
             v = s.mem.get(lv[1])
             return ('ref', lv[1])
         if t == 'obj':
+            s.pnull[lv[1]] = False       # the address of an object is not NULL
             return ('obj', lv[1])
         if t == 'elem':
             return ('mem', lv[1], lv[2])
